@@ -44,13 +44,35 @@ PARTIAL = {
         "volume of the prism over the polygon of ring vertices; NOT formalised: that this prism is the convex hull of "
         "the vertex set (no hull-volume notion in the Lean development) — the oracle compares with scipy ConvexHull"),
     "icosphere_defined": (
-        "that the midpoint cache creates exactly 10·4^order+2 vertices is checked by kernel evaluation for orders 0–2 "
-        "only (icosphere_vertex_counts) and that no midpoint has norm 0 is proved for order 0 only "
-        "(sphere_order0_defined); sphere_structure / ellipsoid_structure are conditional on the factory returning a "
-        "mesh (orders 0–4 are exercised on the real code)"),
+        "proved for EVERY subdivision order on the position-triangle subdivision geoIco (the 20 icosahedron faces of the "
+        "model's icoVertices0 / icoTriangles0, each pass replacing a triangle by the four sub-triangles of the python "
+        "loop body with unnormalised midpoints 0.5·(p+q), exactly as the code stores them): every triangle keeps all "
+        "three pairwise corner dot products > 0 (geoIco_posDots: base case geoIco0_posDots, every face dot = golden "
+        "ratio via f² = f+1 at Real.sqrt 5, no kernel evaluation; inductive step icosphere_subdivision_step), hence no "
+        "two corners antipodal and no edge midpoint is the zero vector (icosphere_midpoints_nonzero_all_orders), "
+        "20·4^order triangles; and sphere_defined_of_nonzero_rows: for every order, if the cache creates at most the "
+        "allocated rows, the midpoint pass returns exactly 10·4^order+2 rows and every row is non-zero, then "
+        "make_tetrahedral_sphere returns a mesh (no division by zero in the final normalisation). Also proved for every "
+        "order on the model's own index/cache state (icosphere_index_bookkeeping_all_orders, by induction over the "
+        "fold): the midpoint pass reads only existing rows (no IndexError), returns exactly v = 12 + #created midpoints "
+        "rows, every triangle index and cached index is < v (icoTopology_ok); the cache key is injective on unordered edges "
+        "(cache_key_identifies_edge); consequently sphere_defined_of_count_and_nonzero_rows: v = 10·4^order+2 and all "
+        "rows of the midpoint pass non-zero imply the factory returns a mesh. REMAINING (not proved): (a) that the rows "
+        "of icoMidpoints indexed by icoTopology's triangles are the position triangles of geoIco (cache entries point at "
+        "the midpoint row of their edge, rows are stable under later appends), which would turn "
+        "icosphere_midpoints_nonzero_all_orders into the non-zero-rows hypothesis; (b) that exactly 10·4^order+2 "
+        "vertices are created for order > 2 (orders 0–2 by kernel evaluation, icosphere_vertex_counts). So "
+        "sphere_structure / ellipsoid_structure stay conditional on the factory returning a mesh for order >= 1 (order "
+        "0: sphere_order0_defined; orders 0–4 are exercised on the real code). The code has no per-midpoint "
+        "normalisation, so 'every vertex has norm = radius' is the existing sphere_structure (any order, conditional)"),
     "capsule_boundary": (
-        "capsule_structure_thm shows the cap vertices at distance exactly r from a cap centre (hence on or inside the "
-        "capsule); that they are on the capsule *surface* (polar angle in (0, π/2]) is not proved; oracle only"),
+        "proved (capsule_cap_vertices_on_surface, helper capsule_cap_vertices_core / capsule_theta_mem): for r >= 0 every "
+        "vertex of the returned mesh except the two medial ones (both poles and all ring vertices of both caps) is at "
+        "distance exactly r from the top cap centre with z >= h/2 or from the bottom cap centre with z <= -h/2, strictly "
+        "for r > 0 (ring polar angles in (0, π/2) because the double np.pi is below π), i.e. on the capsule surface; "
+        "remaining: nothing is proved about the cylindrical part of the surface because the factory places no vertices "
+        "there (lowest ring has polar angle np.pi/2 < π/2, slightly above the cap centre), and that the vertex set is in "
+        "convex position is not proved (see sphere_ellipsoid_capsule_tiling)"),
 }
 ASSUMPTIONS = [
     "float rounding is not modelled: theorems are at exact real arithmetic; the 1e-9·L tolerance of the property is the "
@@ -74,7 +96,13 @@ MANIFEST = dict(
           "(volume = |det|/6 ≥ 0, zero iff coplanar, AABB encloses and is tight, centre of mass is the volume-weighted "
           "mean); make_tetrahedral_cylinder in all three classes for every n >= 3: positive volumes, volumes sum to the "
           "polygonal prism volume, vertices in the cylinder, potentials, class decision; structural theorems for "
-          "sphere/ellipsoid/capsule (vertices on the surface, potentials, counts); model compared with the "
+          "sphere/ellipsoid/capsule (vertices on the surface, potentials, counts; icosphere subdivision at every order: "
+          "pairwise corner dot products of every triangle > 0 and no edge midpoint zero (icosphere_subdivision_step, "
+          "icosphere_midpoints_nonzero_all_orders), factory defined if the rows are complete and non-zero "
+          "(sphere_defined_of_nonzero_rows, sphere_defined_of_count_and_nonzero_rows), midpoint pass index-safe at every "
+          "order (icosphere_index_bookkeeping_all_orders), cache key injective on unordered edges "
+          "(cache_key_identifies_edge); capsule_cap_vertices_on_surface: all "
+          "capsule vertices but the two medial ones on the outward hemisphere of their cap sphere); model compared with the "
           "implementation (Rat-exact on dyadic sizes); oracle on the six real factories with ConvexHull volume."),
     note=("trusted: Lean kernel + Mathlib, axioms propext/Classical.choice/Quot.sound; exact-real semantics; "
           "Σ volumes = hull volume for sphere/ellipsoid/capsule is oracle-only (partial), for the cylinder the prism = "
